@@ -151,8 +151,8 @@ impl Property for C08 {
     }
     fn budget(&self, tier: Tier) -> Budget {
         match tier {
-            Tier::Quick => Budget { cases: 60_000, min_len: 4, max_len: 300 },
-            Tier::Thorough => Budget { cases: 4_000_000, min_len: 4, max_len: 500 },
+            Tier::Quick => Budget { cases: 1000000, min_len: 4, max_len: 300 },
+            Tier::Thorough => Budget { cases: 20000000, min_len: 4, max_len: 500 },
         }
     }
 
